@@ -133,3 +133,7 @@ val aw_state_of : awall -> awstate option
 val abuild1 : afs -> aentry -> afs option
 
 val abuild : afs -> aentry list -> afs option
+
+val apath_prefix : apath -> apath -> bool
+
+val apath_proper_prefix : apath -> apath -> bool
